@@ -1,6 +1,7 @@
 import NjectProofs.IncludeSkip
 import NjectProofs.IncludeMono
 import NjectProofs.IncludeRounds
+import NjectProofs.IncludeClusters2
 import NjectProps.C15b
 /-
   C16 (excluded providers are inert), the part that is a theorem about the include computation:
@@ -118,6 +119,36 @@ theorem C16_elimination_rounds_fuel_is_enough (ch : Chain) (hn : NoCl ch) (extra
     proposalLoop (ch.length + 1 + extra) ch = proposalLoop (ch.length + 1) ch := by
   have := countExcluded_le ch
   exact proposalLoop_fuel _ _ ch hn (by omega) (by omega)
+
+theorem initState_clusterMembers (funcs : List CP) (cannot0 : List Nat) (j : Nat) :
+    ((initState funcs cannot0).get j).clusterMembers = none := by
+  by_cases hj : j < funcs.length
+  · unfold initState Chain.get
+    have hz : j < (funcs.zip (List.range funcs.length)).length := by simp [hj]
+    simp [List.getD, List.getElem?_map, List.getElem?_eq_getElem hz]
+  · rw [get_default_of_ge _ j (by rw [initState_length]; exact hj)]
+    rfl
+
+/-- **C03/C16 (the elimination rounds end, Clusters included)**: for every provider list that passes the first
+    validation, the rounds of trial eliminations in `pruneStages` are over within the `length + 1` rounds the model
+    allows -- more fuel gives the same chain.  With Clusters this rests on the coherence of the cluster lists that
+    `clusters` builds and that `eliminateUnused` and the trials keep (`CC`): the members of a Cluster are excluded
+    together and put back together, so a round never lowers the number of excluded providers. -/
+theorem C03_elimination_rounds_always_end (ti : TyInfo) (funcs : List CP) (cannot0 : List Nat) (ch1 : Chain)
+    (hv : firstValidation ti funcs cannot0 = .ok ch1) (extra : Nat) :
+    let a := clusters (ch1.map fun f => if f.cannot then { f with excluded := true, inc := false } else f)
+    let b := eliminateUnused (a.length + (a.map (·.uses.length)).sum + 8) (List.range a.length) a
+    proposalLoop (a.length + 1 + extra) b = proposalLoop (a.length + 1) b := by
+  apply pruneStages_rounds_fuel
+  intro j
+  unfold firstValidation at hv
+  have hfr := validate_FR true _ ch1 hv
+  have h1 := hfr.2 j
+  unfold flagsOnly at h1
+  rw [← h1]
+  show ((providesReturns ti (initState funcs cannot0) (initPosOf funcs)).get j).clusterMembers = none
+  rw [((providesReturns_YF ti (initState funcs cannot0) (initPosOf funcs)).2 j).1]
+  exact initState_clusterMembers funcs cannot0 j
 
 /-- premises are satisfiable: provider 1 is Shun'd and a farther provider of its type remains; it is excluded, and
     the final function's dependency is provider 0 -/
